@@ -443,6 +443,20 @@ def build():
         return VInt(acc)
     for sfx in ("tick", "complete", "stopped", "started", "paused"):
         C.helpers["posted_" + sfx] = (lambda sf: (lambda I: tposts(I, sf)))(sfx)
+    def stopped_first(I):
+        """the first timer_<name>_stopped post precedes the first timer_<name>_complete post"""
+        this = I.frames[0].env["self"].ref
+        nm = I.force(I.read_field(this, "name")).t
+        names = [I.force(e.args["event"]).t for e in events_named(I, "post")]
+        st = z3.Concat(z3.StringVal("timer_"), nm, z3.StringVal("_stopped"))
+        co = z3.Concat(z3.StringVal("timer_"), nm, z3.StringVal("_complete"))
+        ok = z3.BoolVal(False)
+        # exists i: names[i] == stopped and no complete among names[:i+1]
+        for i in range(len(names)):
+            ok = z3.Or(ok, z3.And(names[i] == st, *[names[j] != co for j in range(i)]))
+        return VBool(ok)
+    C.helpers["stopped_before_complete"] = stopped_first
+    C.trace_helpers |= {"stopped_before_complete"}
     C.helpers["n_unscheduled"] = lambda I: VInt(len(events_named(I, "unschedule")))
     C.helpers["n_intervals"] = lambda I: VInt(len(events_named(I, "schedule_interval")))
     C.helpers["completions"] = lambda I: VInt(len(events_named(I, "timer_complete")))
@@ -452,19 +466,45 @@ def build():
             "(self.direction == 'down' and %s <= self.end_value))")
     TM = ["self.running", "self._ticks", "self.timer", "self.ticks_remaining", "self.delay.pending", "self.tick_secs"]
 
+    def _tpost(I, env, sfx):
+        emit(I, "post", kind="post", event=VStr(z3.Concat(
+            z3.StringVal("timer_"), I.force(I.read_field(env["self"].ref, "name")).t, z3.StringVal("_" + sfx))),
+            kwargs={}, callback=NONE)
+
     def emit_complete(I, env, res):
         emit(I, "timer_complete", via="contract")
-    C.fn("Timer.timer_complete", external=True, emits=emit_complete, modifies=TM,
-         trusted_reason="stops the timer, posts timer_<name>_complete, restarts if configured (its first step, "
-                        "stop(), is verified below; the restart chain reset->jump->start is not under contract)")
+        _tpost(I, env, "stopped")
+        _tpost(I, env, "complete")
+    CAP0 = "(self.max_value if (self.max_value is not None and self.max_value != 0 and %s > self.max_value) else %s)"
+    RESTARTED = ("self.running and self.timer is not None and self._ticks == " + CAP0 % ("self.start_value", "self.start_value") +
+                 " and n_intervals() >= 1 and last_interval_secs() == self.tick_secs")
+    C.fn("Timer.timer_complete", params=dict(kwargs=Opaque("Kwargs")), emits=emit_complete, modifies=TM,
+         ensures=[("T1: a completing timer is stopped first, then timer_<name>_complete is posted - once",
+                   "posted_complete() >= 1 and stopped_before_complete() and "
+                   "implies(completions() == 0, posted_complete() == 1 and posted_stopped() == 1)"),
+                  ("T2: without restart_on_complete the timer is left stopped at its count: no periodic tick, no pending "
+                   "un-pause", "implies(not self.restart_on_complete, not self.running and self.timer is None and "
+                                "not pause_pending() and self._ticks == old(self._ticks) and completions() == 0)"),
+                  ("T3: with restart_on_complete it runs again from its start value with one periodic task (unless the "
+                   "start value completes it at once)",
+                   "implies(self.restart_on_complete and completions() == 0, " + RESTARTED + " and not pause_pending())")],
+         raises={})
+    C.fn("Timer.restart", params=dict(kwargs=Opaque("Kwargs")), modifies=TM, inline_calls=True,
+         ensures=[("RS1: a restarted timer runs from its start value (capped) with a periodic task at its interval - "
+                   "unless the start value completes it at once",
+                   "implies(completions() == 0, " + RESTARTED + ")"),
+                  ("RS2: restarting a stopped or paused timer leaves no un-pause pending",
+                   "implies(completions() == 0 and not old(self.running), not pause_pending())")],
+         raises={})
     C.fn("Timer._check_for_done", result=Bool,
          lets={"done": DONE % ("self._ticks", "self._ticks")},
          ensures=[("a timer completes exactly when its count reaches (or passes) its end value in its direction",
                    "result == done and completions() == (1 if done else 0)"),
                   ("not done: nothing but the remaining-ticks bookkeeping changes",
                    "implies(not done, self._ticks == old(self._ticks) and self.running == old(self.running) and "
-                   "self.timer == old(self.timer) and pause_pending() == old(pause_pending()))")],
-         emits=lambda I, env, res: (emit(I, "timer_complete", via="contract") if I.ctx.branch(I.force(res).t) else None),
+                   "self.timer == old(self.timer) and pause_pending() == old(pause_pending()) and "
+                   "self.tick_secs == old(self.tick_secs))")],
+         emits=lambda I, env, res: (emit_complete(I, env, res) if I.ctx.branch(I.force(res).t) else None),
          modifies=TM, raises={})
     C.fn("Timer.stop",
          ensures=[("stopped: not running and no periodic tick left", "self.running == False and self.timer is None"),
@@ -485,7 +525,7 @@ def build():
                    "self.running == False and self.timer is None and not pause_pending() and n_control_removed() == 1"),
                   ("the count is kept", "self._ticks == old(self._ticks)")],
          modifies=["self.running", "self.timer", "self.delay.pending"], raises={})
-    C.fn("Timer.start", params=dict(kwargs=Opaque("Kwargs")),
+    C.fn("Timer.start", params=dict(kwargs=Opaque("Kwargs")), inline_calls=True,
          ensures=[("S1: a timer that is started (by hand, by a control event or by the delayed un-pause) runs with one "
                    "periodic tick and has NO un-pause delay left: a stale delayed start cannot fire into a later pause",
                    "implies(not old(self.running) and completions() == 0, self.running and self.timer is not None and "
@@ -495,9 +535,23 @@ def build():
                    "self.timer == old(self.timer) and self._ticks == old(self._ticks))"),
                   ("the count is not moved by a start", "implies(completions() == 0, self._ticks == old(self._ticks))")],
          modifies=TM, raises={})
-    C.fn("Timer.pause", params=dict(timer_value=Const(0)),
+    def unpause_is(I, ms):
+        """the pending 'pause' delay calls this timer's start() after ms"""
+        this = I.frames[0].env["self"].ref
+        e = common.delay_entry(I, I.force(I.read_field(this, "delay")).ref, "pause")
+        if e is None:
+            return VBool(False)
+        cb = I.force(e.items[1])
+        ok = cb.tag == "fn" and getattr(cb, "kind", None) == "bound" and cb.obj is this and cb.name == "start"
+        return VBool(z3.And(z3.BoolVal(bool(ok)), I.eq(e.items[0], ms)))
+    C.helpers["unpause_calls_start_after"] = unpause_is
+    C.fn("Timer.pause", params=dict(timer_value=Int, kwargs=Opaque("Kwargs")), requires=["timer_value >= 0"],
          ensures=[("paused: not running and no periodic tick left", "self.running == False and self.timer is None"),
-                  ("count unchanged", "self._ticks == old(self._ticks)")],
+                  ("count unchanged", "self._ticks == old(self._ticks)"),
+                  ("a timed pause un-pauses by calling start() after exactly the requested time; an untimed one adds no "
+                   "un-pause", "unpause_calls_start_after(timer_value) if timer_value > 0 else "
+                               "pause_pending() == old(pause_pending())"),
+                  ("paused event once", "posted_paused() == 1")],
          modifies=["self.running", "self.timer", "self.delay.pending"], raises={}, emits=lambda I, env, res: None)
     C.helpers["pause_pending"] = lambda I: VBool(common.delay_present(
         I, I.force(I.read_field(I.frames[0].env["self"].ref, "delay")).ref, "pause"))
@@ -516,6 +570,65 @@ def build():
               "implies(old(self.running) and %s, completions() == 1 and posted_tick() == 0)" % (DONE % ("nt", "nt"))),
          ],
          modifies=TM, raises={})
+
+    # ---- moving the count: add / subtract / jump / reset / restart, and changing the interval ----------------------
+    C.ext("Timer._get_timer_value", model=lambda I, env, a, k: a[0], pure=True,
+          trusted_reason="a plain number is returned as it is (a template is evaluated to an int: A-TEMPLATE)")
+    C.ext("Timer._get_timer_tick_secs", model=lambda I, env, a, k: a[0], pure=True,
+          trusted_reason="a plain number is returned as it is (a template is evaluated: A-TEMPLATE)")
+    C.cls("TickTemplate", fields=dict(value=Real))
+    C.ext("TickTemplate.evaluate", model=lambda I, env, a, k: I.read_field(env["self"].ref, "value"), pure=True,
+          trusted_reason="template evaluation (C16)")
+
+    def last_interval(I):
+        evs = events_named(I, "schedule_interval")
+        return evs[-1].args["secs"] if evs else VReal(z3.RealVal(-1))
+    C.helpers["last_interval_secs"] = last_interval
+    C.trace_helpers |= {"last_interval_secs"}
+    CAP = "(self.max_value if (self.max_value is not None and self.max_value != 0 and %s > self.max_value) else %s)"
+    ONE_TASK = ("exactly one periodic tick task afterwards, ticking at the timer's interval; the previous one is "
+                "cancelled first (two tasks would tick the count twice per interval)",
+                "implies(completions() == 0, self.timer is not None and n_intervals() == 1 and "
+                "last_interval_secs() == self.tick_secs and n_unscheduled() == (1 if old(self.timer) is not None else 0))")
+
+    def moved(nv):
+        capped = CAP % (nv, nv)
+        return [("the count moves to exactly the requested value (capped at max_value) - and the timer completes exactly "
+                 "when that value reaches its end value in its direction",
+                 "implies(completions() == 0, self._ticks == %s) and completions() == (1 if %s else 0)"
+                 % (capped, DONE % (capped, capped))),
+                ("moving the count neither starts nor stops a timer that is not complete",
+                 "implies(completions() == 0, self.running == old(self.running) and "
+                 "pause_pending() == old(pause_pending()))")]
+    C.fn("Timer.add", params=dict(timer_value=Int, kwargs=Opaque("Kwargs")),
+         ensures=moved("old(self._ticks) + timer_value") +
+         [("the periodic task is left alone", "implies(completions() == 0, self.timer == old(self.timer) and "
+                                              "n_intervals() == 0 and n_unscheduled() == 0)")],
+         modifies=TM, raises={})
+    C.fn("Timer.subtract", params=dict(timer_value=Int, kwargs=Opaque("Kwargs")),
+         ensures=[("the count moves down by exactly the ticks subtracted - and the timer completes exactly when the new "
+                   "count reaches its end value in its direction",
+                   "implies(completions() == 0, self._ticks == old(self._ticks) - timer_value) and "
+                   "completions() == (1 if %s else 0)" % (DONE % ("old(self._ticks) - timer_value",
+                                                                  "old(self._ticks) - timer_value"))),
+                  ("the periodic task is left alone", "implies(completions() == 0, self.timer == old(self.timer) and "
+                                                      "n_intervals() == 0 and n_unscheduled() == 0 and "
+                                                      "self.running == old(self.running))")],
+         modifies=TM, raises={})
+    C.fn("Timer.jump", params=dict(timer_value=Int, kwargs=Opaque("Kwargs")),
+         ensures=moved("timer_value") + [ONE_TASK], modifies=TM, raises={}, inline_calls=True)
+    C.fn("Timer.reset", params=dict(kwargs=Opaque("Kwargs")),
+         ensures=moved("self.start_value") + [ONE_TASK], modifies=TM, raises={}, inline_calls=True)
+    C.fn("Timer.set_tick_interval", params=dict(timer_value=Real, kwargs=Opaque("Kwargs")),
+         ensures=[("the interval is the requested one (always positive) and the count is not moved",
+                   "self.tick_secs == abs(timer_value) and self._ticks == old(self._ticks) and "
+                   "self.running == old(self.running) and completions() == 0"), ONE_TASK],
+         modifies=["self.tick_secs", "self.timer"], raises={})
+    C.fn("Timer.change_tick_interval", params=dict(change=ObjS("TickTemplate"), kwargs=Opaque("Kwargs")),
+         ensures=[("the interval is scaled by the factor and the count is not moved",
+                   "self.tick_secs == old(self.tick_secs) * change.value and self._ticks == old(self._ticks) and "
+                   "self.running == old(self.running) and completions() == 0"), ONE_TASK],
+         modifies=["self.tick_secs", "self.timer"], raises={})
 
     def handle_info(I, cz, v, heap):
         out = {}
